@@ -39,7 +39,9 @@ VARIABLES flavor,     \* the transport class (fixed in the initial state)
           txes,       \* queue of messages still to send (head first)
           wire,       \* every byte the socket accepted, in order
           wlog,       \* payload bytes in the wire log's transmit side
-          queued,     \* history: every byte ever queued, in order
+          queued,     \* history: every byte ever queued, in order (= the buffers the caller handed to tx(), which a
+                      \* transport must leave as they are: a caller may queue the very same buffer again)
+          first,      \* history: the first message ever queued; the model queues it again later (a frame that is re-sent)
           rxbs,       \* receive buffer
           rlog,       \* payload bytes in the wire log's receive side
           delivered,  \* history: every byte the socket handed out
@@ -50,12 +52,13 @@ VARIABLES flavor,     \* the transport class (fixed in the initial state)
           res,        \* result of the last operation
           act         \* the last operation and the environment's answers to it (TLC only labels actions whose
                       \* parameters range over constant sets, so the replay harness reads the step from here)
-vars == <<flavor, mode, txes, wire, wlog, queued, rxbs, rlog, delivered, taken, accepted, connected, cutoff, res, act>>
+vars == <<flavor, mode, txes, wire, wlog, queued, first, rxbs, rlog, delivered, taken, accepted, connected, cutoff, res, act>>
 
 IsClient == flavor \in {"client", "clienttls"}
 IsTls == flavor \in {"clienttls", "incomertls"}
 IsSerial == flavor \in {"serial", "device"}
-Same == UNCHANGED <<flavor, mode>>
+Same0 == UNCHANGED <<flavor, mode>>
+Same == Same0 /\ UNCHANGED first
 
 R(k, n, d) == [k |-> k, n |-> n, d |-> d]
 Full == R("full", 0, <<>>)
@@ -76,7 +79,7 @@ RECURSIVE Flat(_)
 Flat(q) == IF q = <<>> THEN <<>> ELSE Head(q) \o Flat(Tail(q))
 
 Init == /\ flavor \in Flavors /\ mode \in Modes
-        /\ txes = <<>> /\ wire = <<>> /\ wlog = <<>> /\ queued = <<>>
+        /\ txes = <<>> /\ wire = <<>> /\ wlog = <<>> /\ queued = <<>> /\ first = <<>>
         /\ rxbs = <<>> /\ rlog = <<>> /\ delivered = <<>> /\ taken = <<>>
         /\ accepted = ~IsClient /\ connected = ~IsClient
         /\ cutoff = FALSE /\ res = None /\ act = Act("Init", <<>>, "", "")
@@ -84,7 +87,8 @@ Init == /\ flavor \in Flavors /\ mode \in Modes
 (* ---------------- queueing ---------------- *)
 Queue(m) == /\ m # <<>>
             /\ txes' = Append(txes, m) /\ queued' = queued \o m
-            /\ res' = None /\ act' = Act("Queue", m, "", "") /\ Same
+            /\ first' = (IF first = <<>> THEN m ELSE first)
+            /\ res' = None /\ act' = Act("Queue", m, "", "") /\ Same0
             /\ UNCHANGED <<wire, wlog, rxbs, rlog, delivered, taken, accepted, connected, cutoff>>
 
 (* ---------------- transmit ---------------- *)
@@ -216,6 +220,8 @@ RxOnce == {<<t>> : t \in RxTerminals} \cup {<<Data(NextChunk(0, n))>> : n \in {x
 TxSide == mode # "rx"
 RxSide == mode # "tx"
 Next == \/ \E n \in 1..BLen : Len(queued) + n <= BMsgs * BLen /\ Len(txes) < BMsgs /\ Queue(NextMsg(n))
+        \/ first # <<>> /\ queued = first /\ TxSide /\ Len(queued) + Len(first) <= BMsgs * BLen /\ Len(txes) < BMsgs
+              /\ Queue(first)    \* the same frame once more, before or after (part of) its first copy went out
         \/ TxSide /\ \E s \in (IF Usable THEN TxScripts(txes) ELSE {<<>>}) : ServiceTx(s)
         \/ TxSide /\ \E s \in (IF Usable /\ txes # <<>> THEN TxScripts(<<Head(txes)>>) ELSE {<<>>}) : ServiceTxOnce(s)
         \/ RxSide /\ \E s \in (IF Usable THEN RxScripts ELSE {<<>>}) : ServiceRx(s)
